@@ -497,6 +497,11 @@ class QueryScheduler:
         for query in schedule_rescue:
             self.schedule_rescue_query(query, now_millis, RESCUE_RECORD_RETRY_TTL_PERCENTAGE)
 
+        if schedule_rescue and self._query_heap:
+            # A rescue query pushed above may be due before the entry the loop
+            # stopped at; the heap top is live here (cancelled ones were popped).
+            next_scheduled = self._query_heap[0]
+
         if ready_types:
             self.async_send_ready_queries(False, now_millis, ready_types)
 
